@@ -150,7 +150,8 @@ func runC11(c *Ctx) {
 				}
 			}
 			for _, r := range s.Rets {
-				if len(r.Vals) == 3 && r.Vals[2].IsNil() {
+				// success: a nil error, or ok == true
+				if len(r.Vals) == 3 && (r.Vals[2].IsNil() || (r.Vals[2].Op == "bool" && r.Vals[2].B == True)) {
 					line := r.Vals[0]
 					okLine := line.Op == "convert" && line.Args[0].key == bytes.key
 					if r.Vals[1].key == pos0.key && okLine {
